@@ -682,6 +682,9 @@ def ev(n, env, funcs=None):
                 ok = ok and l > r
             elif t is ast.GtE:
                 ok = ok and l >= r
+            elif t in (ast.Is, ast.IsNot) and any(v_ is None or isinstance(v_, bool) or hasattr(type(v_), 'dtype') or isinstance(v_, (PyStub, list, dict, set)) for v_ in (l, r)):
+                # identity with None / True / False / a mutable object is identity (0 is False and numpy.bool_(False) is False are both false)
+                ok = ok and ((l is r) == (t is ast.Is))
             elif t in (ast.Eq, ast.Is):
                 ok = ok and l == r
             elif t in (ast.NotEq, ast.IsNot):
